@@ -86,6 +86,9 @@ def type_name(schema, t):
     return ty["name"]
 
 
+SHORT_NAMES = ["d", "f", "i", "u", "c", "v", "s", "e", "in", "un", "ch", "vo", "st", "fl", "lo", "sh", "si", "ui", "dou", "flo", "cha", "Rf", "RF", "rf"]
+
+
 def leaf_count(schema, t, dyn=2):
     """Rough number of leaves of a value of type t (dynamic dims counted as `dyn`)."""
     ty = schema[t]
@@ -182,6 +185,12 @@ def gen_schema(rng, sw):
                     f.append({"default": _small_scalar(rng, schema[ft]["t"])})
                 fields.append(f)
             name = f"S{next(counter)}"
+            if sw.get("short_names") and rng.random() < 0.6:
+                # legal but hostile class names: short lower-case words that begin the names of C types
+                # (anything that treats class names as patterns in the generated text meets them here)
+                free = [x for x in SHORT_NAMES if x not in names]
+                if free:
+                    name = rng.choice(free)
             schema.append({"k": "struct", "name": name, "fields": fields, "decl": rng.choice(["class", "type()"])})
             names.add(name)
         elif kind == "array":
